@@ -101,6 +101,9 @@ func genVMScenario(seed uint64, idx int, tier string, snapshotBias bool) *VMScen
 	bad := *base
 	bad.Z = 0 // divisor fault: programs dividing by Z fail, possibly inside nested closures
 	bad.K = 9 // index fault
+	if r.Chance(1, 2) {
+		bad.Re = "([" // pattern fault: run-time 'matches' fails to compile it
+	}
 	sc.Envs = []*EnvData{base, &bad}
 	if r.Chance(1, 2) {
 		alt := GenEnvData(r)
@@ -137,6 +140,13 @@ func genVMScenario(seed uint64, idx int, tier string, snapshotBias bool) *VMScen
 			ps.Kind = "feedback"
 			ps.Tree = genFeedback(g0)
 		}
+		if r.Chance(1, 6) {
+			ps.NoEnv = true
+			if r.Chance(1, 2) {
+				ps.Kind = "untyped-calls"
+				ps.Tree = nArr(nCall("Va", nID("A"), nInt(1)), nCall("Tup", nID("B"), nID("A")), nCall("F1", nID("C")))
+			}
+		}
 		if snapshotBias && r.Chance(1, 6) {
 			ps.Kind = "probe"
 			ps.Tree = nil
@@ -172,11 +182,18 @@ func genVMScenario(seed uint64, idx int, tier string, snapshotBias bool) *VMScen
 	budget := tight
 	for i := 0; i < nops; i++ {
 		op := VMOp{VM: r.Intn(sc.VMs), Prog: r.Intn(len(sc.Progs)), Crash: -1}
+		if i > 0 && r.Chance(1, 3) {
+			// the same program again on the same VM (what a long-lived VM is for)
+			op.VM, op.Prog = sc.Ops[i-1].VM, sc.Ops[i-1].Prog
+		}
 		switch r.Intn(8) {
-		case 0:
+		case 0, 2:
 			op.Env = 1
 		case 1:
 			op.Env = r.Intn(len(sc.Envs))
+		}
+		if i > 0 && op.Prog == sc.Ops[i-1].Prog && r.Chance(1, 2) {
+			op.Env = sc.Ops[i-1].Env // ... and on an equal environment
 		}
 		if r.Chance(1, 6) { // the budget itself changes between ops
 			switch r.Intn(4) {
@@ -395,6 +412,17 @@ func (p ProgSpec) Src() string {
 // vmOpts are the compile options of a vmsim scenario.
 func vmOpts(sc *VMScenario, p ProgSpec, sample interface{}) []expr.Option {
 	opts := []expr.Option{expr.Env(sample)}
+	if p.NoEnv {
+		// untyped compilation (generic fetch/call instructions); used only when the
+		// untyped compiler takes the program
+		o := []expr.Option{}
+		if !p.Optimize {
+			o = append(o, expr.Optimize(false))
+		}
+		if _, co := sutCompile(p.Src(), o...); !co.Failed() {
+			return o
+		}
+	}
 	if !p.Optimize {
 		opts = append(opts, expr.Optimize(false))
 	}
@@ -532,11 +560,8 @@ func runVMHistory(sc *VMScenario, ctx *RunCtx, prop string) *Finding {
 		if prop == "C09" {
 			envBefore = Snapshot(envv)
 		}
-		vm.MemoryBudget = op.Budget
-		beginRun(crash, 0)
-		got := sutRun(machines[op.VM], cp.prog, envv)
-		gotJ := w.Journal
-		fired := len(w.Fired)
+		// the fresh VM first: its instruction count bounds the run on the VM with a
+		// history (a run that never ends there is a violation, not a reason to hang)
 		var want Outcome
 		var wantJ []CallRec
 		if feed {
@@ -548,6 +573,14 @@ func runVMHistory(sc *VMScenario, ctx *RunCtx, prop string) *Finding {
 			wantJ = wf.Journal
 		} else {
 			want, wantJ, _ = oneRun(sc, nil, cp, op, crash)
+		}
+		vm.MemoryBudget = op.Budget
+		beginRun(crash, 10000+1000*want.Steps)
+		got := sutRun(machines[op.VM], cp.prog, envv)
+		gotJ := w.Journal
+		fired := len(w.Fired)
+		if got.Err != nil && contains(got.Err.Error(), "main.LivenessAbort") {
+			return &Finding{Class: prop + "/no-progress-on-reused-vm", Detail: fmt.Sprintf("op %d (%s): on the VM with a history the run exceeded %d instructions; on a fresh VM it takes %d\nprogram: %s", opi, label, 10000+1000*want.Steps, want.Steps, cp.src)}
 		}
 		if got.Err == nil && !got.Panicked {
 			lastOut[op.VM] = got.Out
